@@ -90,22 +90,25 @@ SelSeq(c, o) ==
 (* = num[i] / (den[i] * S); s2[i] = |num[i]|^2; ind[i] = 1 iff i counts as *)
 (* slow (fast) by the exact comparison  s2 (ad dd)^2  <  (an dn den S)^2.  *)
 (***************************************************************************)
+\* TLC evaluates [i \in S |-> e] lazily and re-evaluates e at every application; Force turns such a function
+\* over 1..n into a tuple of evaluated elements (same value, evaluated once)
+Force(f, n) == SubSeq(f, 1, n)
 PairData(c, o, e, useCond) ==
-  LET B   == [i \in 1..c.N |-> BaseDisp(c, o, e, i)]
-      den == [i \in 1..c.N |-> IF c.hasNb = 1 THEN Len(NbOf(c, o, i)) ELSE 1]
-      num == [i \in 1..c.N |->
+  LET B   == Force([i \in 1..c.N |-> Force(BaseDisp(c, o, e, i), c.d)], c.N)
+      den == Force([i \in 1..c.N |-> IF c.hasNb = 1 THEN Len(NbOf(c, o, i)) ELSE 1], c.N)
+      num == Force([i \in 1..c.N |->
                 IF c.hasNb = 1
                 THEN LET lst == NbOf(c, o, i) IN
-                     [k \in 1..c.d |-> Len(lst) * B[i][k] - SumSeq([j \in 1..Len(lst) |-> B[lst[j]][k]])]
-                ELSE B[i]]
-      s2  == [i \in 1..c.N |-> Norm2(num[i])]
-      lhs == [i \in 1..c.N |-> s2[i] * Sq(c.a[2] * DiaOf(c, i)[2])]
-      rhs == [i \in 1..c.N |-> Sq(c.a[1] * DiaOf(c, i)[1] * den[i] * c.S)]
-      ind == [i \in 1..c.N |-> IF c.cal = "slow" THEN (IF lhs[i] < rhs[i] THEN 1 ELSE 0)
-                                                 ELSE (IF lhs[i] > rhs[i] THEN 1 ELSE 0)]
-      near == [i \in 1..c.N |-> Abs(lhs[i] - rhs[i]) <= rhs[i] \div 1000000]
+                     Force([k \in 1..c.d |-> Len(lst) * B[i][k] - SumSeq([j \in 1..Len(lst) |-> B[lst[j]][k]])], c.d)
+                ELSE B[i]], c.N)
+      s2  == Force([i \in 1..c.N |-> Norm2(num[i])], c.N)
+      lhs == Force([i \in 1..c.N |-> s2[i] * Sq(c.a[2] * DiaOf(c, i)[2])], c.N)
+      rhs == Force([i \in 1..c.N |-> Sq(c.a[1] * DiaOf(c, i)[1] * den[i] * c.S)], c.N)
+      ind == Force([i \in 1..c.N |-> IF c.cal = "slow" THEN (IF lhs[i] < rhs[i] THEN 1 ELSE 0)
+                                                 ELSE (IF lhs[i] > rhs[i] THEN 1 ELSE 0)], c.N)
+      near == Force([i \in 1..c.N |-> Abs(lhs[i] - rhs[i]) <= rhs[i] \div 1000000], c.N)
       sel == IF useCond /\ c.hasCond = 1 THEN SelSeq(c, o) ELSE AllIds(c)
-  IN  [ o |-> o, e |-> e, sel |-> sel, num |-> num, den |-> den, s2 |-> s2, ind |-> ind,
+  IN  [ o |-> o, e |-> e, sel |-> Force(sel, Len(sel)), num |-> num, den |-> den, s2 |-> s2, ind |-> ind,
         qtie |-> \E j \in 1..Len(sel) : near[sel[j]],
         qtieAll |-> \E i \in 1..c.N : near[i],
         mtie |-> MTie(c, o, e) ]
@@ -160,7 +163,7 @@ DefPairsSeq(c, variant, k) ==
   ELSE [j \in 1..(c.T - k) |-> <<j - 1, j - 1 + k>>]
 DefPairs(c, variant, k) == Range(DefPairsSeq(c, variant, k))
 PDs(c, variant, k) ==
-  LET ps == DefPairsSeq(c, variant, k) IN [j \in 1..Len(ps) |-> PairData(c, ps[j][1], ps[j][2], TRUE)]
+  LET ps == DefPairsSeq(c, variant, k) IN Force([j \in 1..Len(ps) |-> PairData(c, ps[j][1], ps[j][2], TRUE)], Len(ps))
 
 UniformSel(pds) == \A j \in 1..Len(pds) : NSel(pds[j]) = NSel(pds[1])
 Still(pds)      == \A j \in 1..Len(pds) : \A m \in 1..NSel(pds[j]) : pds[j].s2[pds[j].sel[m]] = 0
